@@ -27,6 +27,7 @@ Proof.
     try reflexivity; inr; pow10; lia.
   destruct (in_range 1 6 fp) eqn:Hfp; cbn [negb] in H; [|discriminate].
   destruct (10 ^ fp <? f) eqn:Hm; [discriminate|].
-  guards. inversion H; subst. cbn [valid_time]. rewrite ?andb_true_iff; repeat split; try assumption.
-  destruct (fp_cases fp Hfp) as [->|[->|[->|[->|[->| ->]]]]]; inr; pow10; lia.
+  destruct (4294967295 <? f * 10 ^ (6 - fp)) eqn:Ho; guards; try discriminate.
+  inversion H; subst. cbn [valid_time]. rewrite ?andb_true_iff; repeat split; try assumption.
+  all: destruct (fp_cases fp Hfp) as [->|[->|[->|[->|[->| ->]]]]]; inr; pow10; lia.
 Qed.
